@@ -11,6 +11,10 @@ def start(prop, tier):
     fx = Facts("full")
     run.tree_hash = fx.hash
     run.configs.append({"config": "full", "crates": fx.summary()})
+    if getattr(fx, "moved", None):
+        run.analysed["moved_functions"] = dict(sorted(fx.moved.items()))
+        run.notes.append("%d function(s) of the inventory were found moved/renamed with an unchanged body and are analysed under "
+                         "their inventory path" % len(fx.moved))
     return run, fx
 
 
